@@ -51,6 +51,13 @@ Inductive cond := CScalarImagZero | CDomainIsField | CDomainIsRealNumbers | CDom
   | CDomainIsComplex | CSpaceIsReal | CDomainIsReal | CScalarIsReal | CScalarIsImag | CNotLinear.
 Inductive lrule := LRet (o : lx) | LIf (c : cond) (a b : lrule) | LRaise.
 
+(* ---- ProductSpaceOperator.adjoint: the COO transposition ---- *)
+Inductive coosrc := CooRow | CooCol.      (* self.ops.row | self.ops.col *)
+Record psrule := { ps_adj_entries : bool;   (* data = [op.adjoint for op in self.ops.data] *)
+                   ps_row_src : coosrc; ps_col_src : coosrc;   (* indices = [<rows>, <cols>] *)
+                   ps_shape_swapped : bool;  (* shape = (self.ops.shape[1], self.ops.shape[0]) *)
+                   ps_domain : spc; ps_range : spc }.   (* ProductSpaceOperator(adj_matrix, <domain>, <range>) *)
+
 Definition akey_eqb (a b : akey) : bool :=
   match a, b with
   | KDomain, KDomain | KRange, KRange | KSpace, KSpace | KScalar, KScalar | KVector, KVector
